@@ -629,4 +629,3 @@ package protocol
 //@   loop 0:
 //@     invariant 0 <= i && i <= n && n == len(a.args) && sameSlice(a.args, old(a.args))
 //@     invariant extends(dst, old(dst)) && spareOnly(old(dst))
-
